@@ -15,7 +15,7 @@ use vcore::alpha::{self, Tier};
 use vcore::out::diff_class;
 use vcore::par::{run_jobs, subject};
 use vcore::report::{Args, Report, Tally, Violation};
-use vcore::{Lay, Layout, Out};
+use vcore::{Lay, Layout, Out, Z};
 
 pub type BinFn = fn(usize, u128, u128) -> Out;
 pub type UnFn = fn(usize, u128) -> Out;
@@ -303,6 +303,44 @@ fn run_job(tab: &[Entry], job: &Job, prop: Prop, tier: Tier) -> JobOut {
     let mut judged = 0u64;
     let items: Vec<(u128, &[u128])> = if job.rel.is_empty() { job.a.iter().map(|&a| (a, &job.b[..])).collect() } else { job.rel.iter().map(|(a, bs)| (*a, &bs[..])).collect() };
     for (a, bs) in items {
+        if job.unary && prop == Prop::C01 {
+            // `Product` (owned and by reference) is multiplication through an iterator: the product of the one-element
+            // sequence [a] is a, that of [a, b] is floor(a * b / 2^frac) whenever that is representable (one
+            // multiplication, so no association order is presumed), the empty product is 1 where the type holds 1.
+            // Types without a representable 1 are the point: a fold that starts from 1 is wrong for all of them.
+            states += 1;
+            let mut seqs: Vec<(Vec<u128>, Z)> = vec![(vec![a], l.z(a))];
+            for &b in job.partners.iter().chain([a, l.max_raw(), l.min_raw(), l.max_raw() >> (l.w / 2)].iter()) {
+                seqs.push((vec![a, b], l.z(a).mul(l.z(b)).shr_floor(l.frac)));
+                seqs.push((vec![b, a], l.z(a).mul(l.z(b)).shr_floor(l.frac)));
+            }
+            if a == 0 && l.int_bits() > l.signed as u32 {
+                seqs.push((vec![], Z::pow2(l.frac)));
+            }
+            for (xs, exact) in seqs {
+                if !l.fits(&exact) {
+                    continue;
+                }
+                let exp = Out::V(l.wrap(&exact));
+                for which in 2..4 {
+                    let got = subject(|| (e.fold)(which, &xs)).unwrap_or(Out::Panic);
+                    transitions += 1;
+                    judged += 1;
+                    *rep.extra.entry("product_folds_judged".into()).or_default() += 1;
+                    if got != exp {
+                        rep.violation(Violation {
+                            key: format!("{} {}", l.class(), FOLD_OPS[which]),
+                            diff: if got == Out::Panic { "unexpected-panic".into() } else { "value".into() },
+                            case: format!("arith {} {} {}", l.name(), FOLD_OPS[which], xs.iter().map(|x| format!("{:#x}", x)).collect::<Vec<_>>().join(" ")),
+                            observed: got.to_string(),
+                            expected: exp.to_string(),
+                            note: format!("product of the sequence {:x?} through core::iter::Product; exact={}", xs, exact),
+                            kf: None,
+                        });
+                    }
+                }
+            }
+        }
         if job.unary && sel_un.iter().any(|&x| x) {
             states += 1;
             let mut any = false;
@@ -618,7 +656,25 @@ fn cmd_replay(args: &[String]) -> i32 {
     if let Some(which) = FOLD_OPS.iter().position(|n| *n == args[1]) {
         let xs: Vec<u128> = args[2..].iter().map(|s| parse_hex(s)).collect();
         let got = subject(|| (e.fold)(which, &xs)).unwrap_or(Out::Panic);
-        println!("profile:  {}\ncall:     {} {} {:x?}\nobserved: {}\n(compare the two profiles)", vcore::profile_name(), l.name(), args[1], xs, got);
+        println!("profile:  {}\ncall:     {} {} {:x?}\nobserved: {}", vcore::profile_name(), l.name(), args[1], xs, got);
+        if which >= 2 && xs.len() <= 2 {
+            let exact = match xs.len() {
+                0 => Z::pow2(l.frac),
+                1 => l.z(xs[0]),
+                _ => l.z(xs[0]).mul(l.z(xs[1])).shr_floor(l.frac),
+            };
+            if l.fits(&exact) {
+                let exp = Out::V(l.wrap(&exact));
+                println!("expected: {} (exact product {})", exp, exact);
+                if got != exp {
+                    println!("DIFFERS");
+                    return 1;
+                }
+                println!("AGREES");
+                return 0;
+            }
+        }
+        println!("(no value is specified for this fold; compare the two profiles)");
         return 0;
     }
     let (unary, i, op) = find_op(&args[1]).expect("unknown op");
